@@ -56,6 +56,23 @@ CHECKS = {
               "LAPACK/ARPACK/CG solve is involved); MathGeneral and AutoMod cannot be executed (sympy/jax absent)"),
         technique="TLA+ protocol machine checked by TLC; replay of all emitted histories on every library module configuration",
         design="9/C04"),
+    "C06": dict(
+        text=("LDAS.tla models LDAWrapper.update/solve operationally (flag detection unless user-given, storage/conjugation "
+              "selection, modified Gram-Schmidt reconstruction with the real/complex skip rule in exact fraction-free "
+              "Gaussian-integer arithmetic, inner solve iff a residual remains, orthogonalised append, both databases cleared "
+              "on update) over five matrix classes and a pool of exact right-hand sides (new, repeated, zero, scaled, summed, "
+              "imaginary multiples, conjugate pairs, blocks with dependent columns). TLC checks the declarative C06: ModeSound "
+              "(the system solved is the requested one for the current class), Forget, Reuse (span by exact rank, modulo the "
+              "recorded known finding), NoNeedlessReuse and DbRank for all histories to depth 4/5, refutes the negative "
+              "variants, and LDASPattern.tla checks DiagSound/DiagComplete over every 3x3 sparsity pattern admitting a "
+              "non-singular matrix. All behaviours to depth 2/3 and simulated long ones are replayed on LDAWrapper around a "
+              "counting dense and sparse LU: per step the inner-call decision, both database sizes, the flags, dtype/shape of "
+              "the answer and the residual of the requested system of the current matrix are compared."),
+        note=(TLC_BASE + "; classes realised by seeded, well-conditioned generic matrices; right-hand sides embedded "
+              "isometrically so exact dependence equals numerical dependence far from the wrapper tolerance; user-given "
+              "flags are truthful; [O] residual threshold 1e-5"),
+        technique="TLA+ state machine with exact Gram-Schmidt checked by TLC; behaviour replay on LDAWrapper with a counting inner solver",
+        design="9/C06"),
 }
 
 
